@@ -193,13 +193,13 @@ func checkLiveLoop(p *Prog, r *Report, live *ssa.Function) {
 				r.Viol("C19.R1", key, pos, "the next pass starts only after a timer created when the previous pass ended has fired", "regeneration without a fresh wait on this path (a shared ticker or no wait lets the next pass start early)", path...)
 				continue
 			}
-			_, f, isF := fieldLoad(s.Resolve(timerCall.Call.Args[0]))
+			_, f, isF := fieldLoad(throughOnceAssigned(p, s.Resolve(timerCall.Call.Args[0])))
 			if !isF || f != "rescanTimeout" {
 				r.Viol("C19.R1", key, pos, "the wait is the configured rescan interval", "timer duration is "+s.Term(timerCall.Call.Args[0]), path...)
 				continue
 			}
 			sameRange := len(gen.Call.Args) == 2 && originIs(p, gen.Call.Args[1], rangeParam)
-			dl, _, isDel := fieldLoad(s.Resolve(gen.Call.Value))
+			dl, _, isDel := fieldLoad(throughOnceAssigned(p, s.Resolve(gen.Call.Value)))
 			r.Check(sameRange && isDel && dl != nil, "C19.R1", key, pos, "the new pass is generated by the same delegate over the same range", "regeneration uses another range or generator", path...)
 		default:
 			r.Viol("C19.R1", key, pos, "every path of the live loop is a forward, a cancellation exit, or wait+regenerate", "unclassified path", path...)
